@@ -341,6 +341,15 @@ def run_one(ctx, fname, c, placement):
                 if spec.get("only_anchor", {}).get(b) == [a] or spec.get("only_anchor", {}).get(a) == [b]:
                     continue   # intended (mac inside state)
                 sep[b] = x.out(outs[b]); del opos[b]
+    # the arena is cut to the extent of the placed buffers: the lowest one starts and the highest one ends exactly at the ends of the
+    # allocation, so an access of the function outside its buffers there falls into a red zone (C07)
+    ext = [p_ for p_ in list(pos.values()) + list(opos.values())]
+    if ext:
+        lo = min(a for a, n in ext)
+        hi = max(a + n for a, n in ext)
+        pos = {k: (a - lo, n) for k, (a, n) in pos.items()}
+        opos = {k: (a - lo, n) for k, (a, n) in opos.items()}
+        total = hi - lo
     arena = bytearray(b"\xEE" * total)
     for k, v in ins.items():
         arena[pos[k][0]:pos[k][0] + len(v)] = v
